@@ -32,6 +32,21 @@ def run(ctx):
     if m is None:
         raise AnalysisError("SMCSamples.resample not found")
     ev, ret = fold(repo, m, S)
+    # an optional parameter through which the caller may hand in ready-made weights (`x if x is not None else computed`):
+    # the method is folded on the "not given" path, the call sites are checked separately (supplied_rule)
+    supplied = None
+    opt = [T.atom(p_) for p_ in m.params[2:] if p_ not in ("n_samples", "rng")]
+    for e0 in ev.events:
+        if e0.depth == 0 and e0.callee == "method:choice":
+            pv = dict(e0.kwargs).get("p")
+            for x in (T.subterms(pv) if pv is not None else []):
+                if x[0] == "phi" and x[1][0] == "is" and x[1][2] == T.NONE and x[1][1] in opt and x[3] == x[1][1]:
+                    supplied = x[1][1][1]
+    if supplied is not None:
+        from ..evalr import Evaluator
+        sup_atom = T.atom(supplied)
+        ev = Evaluator(repo, max_depth=3, assume=lambda c: True if c == ("is", sup_atom, T.NONE) else None)
+        ret = ev.run(m, S)
     ctx.count("functions_folded")
     construct, loc = m.ident, loc_of(m)
     beta = T.atom("beta")
@@ -87,6 +102,8 @@ def run(ctx):
                     else:
                         why = f"p == {name} but u = {T.show(u)[:160]} is not the incremental log-weight (b-beta)(L+P-Q) up to a scalar"
     ctx.decide(ok, "C09.p", construct, loc, why, why + " ; expected normalised incremental weights exp(u - LSE(u))")
+    if supplied is not None:
+        supplied_rule(ctx, repo, m, supplied)
     idx = e.result
     nk = dict(news[0].kwargs)
     loc2 = loc_of(m, news[0].node)
@@ -115,6 +132,30 @@ def run(ctx):
         ok = same == SELF and c in (want_c, alt)
         ctx.decide(ok, "C09.same", construct, loc_of(m), "returns self only when beta is unchanged and no size was requested",
                    f"early return {T.show(same)[:60]} taken on {T.show(c)[:160]}")
+
+
+def supplied_rule(ctx, repo, m, pname):
+    """resample() accepts a caller-computed weight vector: every call that hands one in must hand in
+    log_weights(<the population being resampled>, <the temperature it is resampled to>)."""
+    from .smcloop import SMC, fold_sample
+    smc = repo.cls(SMC)
+    sample = smc.methods["sample"]
+    sf = fold_sample(repo, resumed=False, final=None, inline_db=True)
+    n = 0
+    for e in sf.events("method:resample", in_loop=None):
+        given = dict(e.kwargs).get(pname)
+        if given is None:
+            continue
+        n += 1
+        recv, b_arg = e.args[0], (e.args[1] if len(e.args) > 1 else dict(e.kwargs).get(m.params[1]))
+        want = ("f", "method:log_weights", (recv, b_arg), ())
+        leaves = list(T.phi_leaves(given))
+        okc = all(l == want for l in leaves)
+        ctx.decide(okc, "C09.p", sample.ident, loc_of(sample, e.node),
+                   f"the weights handed to resample({pname}=...) are log_weights(population, beta') for the temperature it resamples to",
+                   f"resample is handed {pname} = {T.show(given)[:140]}, which is not log_weights(population, {T.show(b_arg)[:80]}) on every path: when the temperature actually used differs "
+                   "from the one the weights were computed for (e.g. a step forced by the minimum step), particles are selected by the weights of another temperature move",
+                   disc=f"supplied|{n}")
 
 
 def label_rule(ctx):
